@@ -34,7 +34,7 @@ CHECKS = {
  "C13": ("exploration", SIM + ": bystander op histories (create closure / reassign callee or receiver / call) encoded in plain functions; history equality between source-built and generated package",
          "Differential execution of co-located non-generator code with the closure-timing shapes file-wide passes endanger.", TB_C, "DESIGN.md 4 C13"),
  "C14": ("exploration", SIM + ": seeded thread scheduler pre-empting consumer threads at op boundaries and effect points (runtime terms and compiled programs); per-iterator projection vs solo run",
-         "Seeded search over interleavings of k iterators on m simulated threads with pre-emption inside steps; self-relative oracle plus equality with the reference under the same choices. The -race supplement is runtime monitoring and not part of the verdict here.", "Trusted: sim/sched (baton passing, one runnable goroutine), sim/refco.", "DESIGN.md 4 C14"),
+         "Seeded search over interleavings of k iterators on m simulated threads with pre-emption inside steps; self-relative oracle plus equality with the reference under the same choices. A supplement runs the same shared-value scenarios on truly parallel goroutines under the race detector (a race report or a per-iterator deviation is a violation too); that part is runtime monitoring, not seed-replayable, and flagged as such in the evidence.", "Trusted: sim/sched (baton passing, one runnable goroutine), sim/refco.", "DESIGN.md 4 C14"),
  "C15": ("fault_enumeration", SIM + " of tool-run histories over a directory tree with constructed crash-restart states (every file-write point of both stages), stale and conflicting directories; byte equality with a clean run",
          "Every crash point of every sampled layout is materialised (thorough; seeded subset in quick) and followed by a normal run; plus placement/repetition configurations.", "Trusted: crash-state construction (files in write order + torn prefix); the real file system.", "DESIGN.md 4 C15, 2.6"),
  "C16": ("fault_enumeration", SIM + " of go:generate runs of the real cogen binary over generated package layouts with stale temporary/output state; directory snapshots, build/test, idempotence",
